@@ -141,6 +141,27 @@ func (g *Plugin) migrateDefaultQuotaGroupsPod() {
 	}
 }
 
+// migratePodFromDefaultQuota handles a pod that was created before its quota group and still sits in the default quota
+// group because migrateDefaultQuotaGroupsPod has not processed it yet. It moves the pod to its quota group first, so that
+// the event being handled applies to the only group that counts the pod.
+func (g *Plugin) migratePodFromDefaultQuota(pod *v1.Pod, quotaName string, mgr *core.GroupQuotaManager) {
+	if pod == nil || mgr == nil || quotaName == "" || quotaName == extension.DefaultQuotaName {
+		return
+	}
+	defaultQuotaInfo := g.groupQuotaManager.GetQuotaInfoByName(extension.DefaultQuotaName)
+	if defaultQuotaInfo == nil || !defaultQuotaInfo.IsPodExist(pod) {
+		return
+	}
+	if mgr.GetTreeID() != "" {
+		// different tree.
+		g.groupQuotaManager.OnPodDelete(extension.DefaultQuotaName, pod)
+		mgr.OnPodAdd(quotaName, pod)
+	} else {
+		// the same tree.
+		mgr.MigratePod(pod, extension.DefaultQuotaName, quotaName)
+	}
+}
+
 // migratePods if a quotaGroup is deleted, migrate its pods to defaultQuotaGroup
 func (g *Plugin) migratePods(out, in string) {
 	outQuota := g.groupQuotaManager.GetQuotaInfoByName(out)
